@@ -275,22 +275,25 @@ Section M.
   Definition gmd_mode (m : mode) : T N := match m with Idle | Approach => q 20 1 | _ => q 40 1 end.
   Definition c_pi : T N := q 3141592653589793 1000000000000000.
 
+  (* reconstruction of missing mode indices from the smoke number (mass, mg/kg) and from the mass (number) *)
+  Definition meem_recon_mass (sn : T N) (m : mode) (bp : T N) : T N :=
+    let ci := scope11_cbc sn in
+    let Q := q 97 125 * afr m * (q 1 1 + bp) + q 767 1000 in
+    ci * Q * scope11_kslm ci bp.
+  Definition meem_recon_num (mass_m : T N) (m : mode) : T N :=
+    q 6 1 * mass_m /
+    (c_pi * q 1000000000 1 * npow_nat (gmd_mode m * q 1 1000000000) 3 * nexp (q 9 2 * npow_nat (nln (q 9 5)) 2)).
+
   Definition meem_mass_modes (e : edb) : tmv :=
     if tmin (e_mass e) <? zero then
       let bp := if String.eqb (e_type e) "MTF" then e_bpr e else zero in
-      let f (m : mode) :=
-        let ci := scope11_cbc (tget (e_SN e) m) in
-        let Q := q 97 125 * afr m * (q 1 1 + bp) + q 767 1000 in
-        ci * Q * scope11_kslm ci bp in
+      let f (m : mode) := meem_recon_mass (tget (e_SN e) m) m bp in
       (f Idle, f Approach, f Climb, f Takeoff)
     else e_mass e.
 
   Definition meem_num_modes (e : edb) (mass : tmv) : tmv :=
     if tmin (e_num e) <? zero then
-      let ln18 := nln (q 9 5) in
-      let f (m : mode) :=
-        let g := gmd_mode m * q 1 1000000000 in
-        q 6 1 * tget mass m / (c_pi * q 1000000000 1 * (g * g * g) * nexp (q 9 2 * (ln18 * ln18))) in
+      let f (m : mode) := meem_recon_num (tget mass m) m in
       (f Idle, f Approach, f Climb, f Takeoff)
     else e_num e.
 
@@ -302,43 +305,59 @@ Section M.
     | Max925 => [(- q 10 1, a0); (q 7 100, a0); (q 3 10, a1); (q 17 20, a2); (q 37 40, vmax); (q 1 1, a3); (q 100 1, a3)]
     end.
 
-  (* compressor pressure coefficient of a point: climbing -> 0.85 ... 1.15 linearly in the altitude between
-     3000 and the top of the trajectory (extrapolated outside, as coded), level -> 0.95, descending -> 0.12 *)
-  Definition meem_lin (hmax h : T N) : T N :=
-    (h - q 3000 1) / (let d := hmax - q 3000 1 in if q 1 1 <? d then d else q 1 1).
-  Definition meem_pc (hmax hp h : T N) : T N :=
-    let rate := h - hp in
-    if zero <? rate then q 17 20 + (q 23 20 - q 17 20) * meem_lin hmax h
+  (* compressor efficiency and pressure coefficient of a point from its altitude rate (h - previous h):
+     climbing -> 0.85 ... 1.15 linearly in the altitude between 3000 and the top of the trajectory
+     (extrapolated outside, as coded), level -> 0.95, descending -> 0.12 *)
+  Definition meem_eta_rate (rate : T N) : T N := if zero <=? rate then q 22 25 else q 7 10.
+  Definition meem_lin (hmax h : T N) : T N := (h - q 3000 1) / nmax (q 1 1) (hmax - q 3000 1).
+  Definition meem_pc_rate (rate lin : T N) : T N :=
+    if zero <? rate then q 17 20 + (q 23 20 - q 17 20) * lin
     else if rate =? zero then q 19 20 else q 3 25.
+  Definition meem_pc (hmax hp h : T N) : T N := meem_pc_rate (h - hp) (meem_lin hmax h).
+  Definition meem_eta (hp h : T N) : T N := meem_eta_rate (h - hp).
   (* P3 / Pt : combustor inlet total pressure over ambient total pressure *)
   Definition meem_p3_ratio (pr hmax hp h : T N) : T N := q 1 1 + meem_pc hmax hp h * (pr - q 1 1).
-  Definition meem_eta (hp h : T N) : T N := if zero <=? h - hp then q 22 25 else q 7 10.
+  (* the region where the method is well defined: non-negative pressure coefficient.
+     Its complement contains every point of finding FC12b (P3 <= 0). *)
+  Definition meem_guard (hmax hp h : T N) : bool := zero <=? meem_pc hmax hp h.
+
+  (* thermodynamic chain: ambient static -> total -> combustor inlet (P3, T3) -> sea-level reference P3 -> thrust *)
+  Definition meem_stag (M : T N) : T N := q 1 1 + (c_kappa - q 1 1) / q 2 1 * (M * M).
+  Definition meem_Tt (Ta M : T N) : T N := Ta * meem_stag M.
+  Definition meem_Pt (P M : T N) : T N := P * npow (meem_stag M) (c_kappa / (c_kappa - q 1 1)).
+  Definition meem_P3 (P M pc pr : T N) : T N := meem_Pt P M * (q 1 1 + pc * (pr - q 1 1)).
+  Definition meem_T3 (Ta P M pc pr eta : T N) : T N :=
+    meem_Tt Ta M * (q 1 1 + (q 1 1 / eta) * (npow (meem_P3 P M pc pr / meem_Pt P M) ((c_kappa - q 1 1) / c_kappa) - q 1 1)).
+  Definition meem_P3ref (T3 eta : T N) : T N :=
+    c_p0 * npow (q 1 1 + eta * (T3 / c_T0 - q 1 1)) (c_kappa / (c_kappa - q 1 1)).
+  Definition meem_F (P3ref pr : T N) : T N := (P3ref / c_p0 - q 1 1) / (pr - q 1 1).
+  Definition meem_thermo (pr pc eta Ta P M : T N) : T N * T N * T N :=     (* (P3, P3ref, F/F00) *)
+    let P3ref := meem_P3ref (meem_T3 Ta P M pc pr eta) eta in
+    (meem_P3 P M pc pr, P3ref, meem_F P3ref pr).
 
   (* altitude adjustment of a reference index: EI = 1e-3 * EI_ref * (P3 / P3_ref)^1.35 * 1.1^2.5 *)
   Definition meem_adjust (ref_mass P3 P3ref : T N) : T N :=
     q 1 1000 * ref_mass * npow (P3 / P3ref) (q 27 20) * npow (q 11 10) (q 5 2).
+  Definition meem_number (ref_num ei_mass ref_mass : T N) : T N := ref_num * ei_mass / (q 1 1000 * ref_mass).
 
-  (* one trajectory point: altitude h, altitude of the previous point hp (first point: itself),
-     highest altitude of the trajectory hmax, ambient T / P, Mach; result (GMD, EI mass g/kg, EI number #/kg) *)
-  Definition meem_point (e : edb) (hmax hp h Ta P M : T N) : T N * T N * T N :=
+  (* emission indices from the engine data and the thermodynamic state: (GMD, EI mass g/kg, EI number #/kg) *)
+  Definition gmd_modes : tmv := (gmd_mode Idle, gmd_mode Approach, gmd_mode Climb, gmd_mode Takeoff).
+  Definition meem_emit (e : edb) (st : T N * T N * T N) : T N * T N * T N :=
+    let '(P3, P3ref, F) := st in
     let mass := meem_mass_modes e in
     let num := meem_num_modes e mass in
-    let eta := meem_eta hp h in
-    let k2 := (c_kappa - q 1 1) / q 2 1 in
-    let stag := q 1 1 + k2 * (M * M) in
-    let Tt := Ta * stag in
-    let Pt := P * npow stag (c_kappa / (c_kappa - q 1 1)) in
-    let P3 := Pt * meem_p3_ratio (e_pr e) hmax hp h in
-    let T3 := Tt * (q 1 1 + (q 1 1 / eta) * (npow (P3 / Pt) ((c_kappa - q 1 1) / c_kappa) - q 1 1)) in
-    let P3ref := c_p0 * npow (q 1 1 + eta * (T3 / c_T0 - q 1 1)) (c_kappa / (c_kappa - q 1 1)) in
-    let F := (P3ref / c_p0 - q 1 1) / (e_pr e - q 1 1) in
     let ref_mass := ninterp F (meem_grid mass (e_mass_max e) (e_mass_kind e)) in
     let ref_num := ninterp F (meem_grid num (e_num_max e) (e_num_kind e)) in
-    let gmd := ninterp F (meem_grid (gmd_mode Idle, gmd_mode Approach, gmd_mode Climb, gmd_mode Takeoff) zero NoMax) in
+    let gmd := ninterp F (meem_grid gmd_modes zero NoMax) in
     let ei_mass := meem_adjust ref_mass P3 P3ref in
-    let ei_num := ref_num * ei_mass / (q 1 1000 * ref_mass) in
+    let ei_num := meem_number ref_num ei_mass ref_mass in
     if tmax (e_SN e) <? zero then (zero, zero, zero)
     else (gmd, (if ei_mass <? zero then zero else ei_mass), ei_num).
+
+  (* one trajectory point: altitude h, altitude of the previous point hp (first point: itself),
+     highest altitude of the trajectory hmax, ambient T / P, Mach *)
+  Definition meem_point (e : edb) (hmax hp h Ta P M : T N) : T N * T N * T N :=
+    meem_emit e (meem_thermo (e_pr e) (meem_pc hmax hp h) (meem_eta hp h) Ta P M).
 
   Fixpoint meem_traj_from (e : edb) (hmax hp : T N) (pts : list (T N * T N * T N * T N))
     : list (T N * T N * T N) :=
